@@ -75,3 +75,11 @@ SHAPE(many_opt, Many<Opt<0, int, false, false>>)
 // unit alone
 SHAPE(unit, Unit<0>)
 //@harness h_parse_unit param n=0..2 tier=quick loop=200
+
+// one option with a short name, alone: four tokens reach "--long v -short w" (both spellings: an error, nothing is
+// dropped silently) in the quick tier
+SHAPE(opt_only, Opt<0, int, true, false>)
+//@harness h_parse_opt_only param n=0..3 tier=quick loop=200
+//@harness h_parse_opt_only param n=4..4 tier=quick loop=200 cost=9
+SHAPE(optdef_only, Opt<0, sstr, true, true>)
+//@harness h_parse_optdef_only param n=4..4 tier=thorough loop=200
